@@ -1,8 +1,10 @@
 package eng
 
 import (
+	"go/constant"
 	"go/token"
 	"sort"
+	"strconv"
 	"strings"
 
 	"golang.org/x/tools/go/ssa"
@@ -286,15 +288,47 @@ func ResolveLocal(v ssa.Value) ssa.Value {
 // be established by any of several branch outcomes (short-circuit conditions
 // have no single dominating edge).
 func PathToAvoiding(fn *ssa.Function, target ssa.Instruction, barrier func(ssa.Instruction) bool, cut func(a *ssa.BasicBlock, succ int) bool) bool {
-	seen := map[*ssa.BasicBlock]bool{}
-	queue := []*ssa.BasicBlock{fn.Blocks[0]}
+	// The search knows the value of a boolean phi when the block was entered over an edge that carries a
+	// constant (the lowered form of `a || b`, `a && b`): an If on such a phi is followed only on the matching side.
+	type state struct {
+		b     *ssa.BasicBlock
+		known map[*ssa.Phi]bool
+	}
+	keyOf := func(st state) string {
+		var parts []string
+		for p, v := range st.known {
+			parts = append(parts, p.Name()+"="+map[bool]string{true: "1", false: "0"}[v])
+		}
+		sort.Strings(parts)
+		return strconv.Itoa(st.b.Index) + "|" + strings.Join(parts, ",")
+	}
+	constBool := func(v ssa.Value, known map[*ssa.Phi]bool) (bool, bool) {
+		if k, ok := v.(*ssa.Const); ok && k.Value != nil && k.Value.Kind() == constant.Bool {
+			return constant.BoolVal(k.Value), true
+		}
+		if p, ok := v.(*ssa.Phi); ok {
+			if val, has := known[p]; has {
+				return val, true
+			}
+		}
+		return false, false
+	}
+	seen := map[string]bool{}
+	queue := []state{{fn.Blocks[0], map[*ssa.Phi]bool{}}}
+	steps := 0
 	for len(queue) > 0 {
-		b := queue[0]
+		st := queue[0]
 		queue = queue[1:]
-		if seen[b] {
+		k := keyOf(st)
+		if seen[k] {
 			continue
 		}
-		seen[b] = true
+		seen[k] = true
+		steps++
+		if steps > 200000 {
+			return true // give up conservatively
+		}
+		b := st.b
 		stop := false
 		for _, in := range b.Instrs {
 			if in == target {
@@ -308,11 +342,43 @@ func PathToAvoiding(fn *ssa.Function, target ssa.Instruction, barrier func(ssa.I
 		if stop {
 			continue
 		}
+		var iff *ssa.If
+		if n := len(b.Instrs); n > 0 {
+			iff, _ = b.Instrs[n-1].(*ssa.If)
+		}
 		for i, s := range b.Succs {
 			if cut != nil && cut(b, i) {
 				continue
 			}
-			queue = append(queue, s)
+			if iff != nil {
+				if val, ok := constBool(iff.Cond, st.known); ok && val != (i == 0) {
+					continue // infeasible on this path
+				}
+			}
+			// phi values on entering s from b
+			nk := map[*ssa.Phi]bool{}
+			for p, v := range st.known {
+				nk[p] = v
+			}
+			pi := -1
+			for j, p := range s.Preds {
+				if p == b {
+					pi = j
+				}
+			}
+			for _, in := range s.Instrs {
+				phi, ok := in.(*ssa.Phi)
+				if !ok {
+					break
+				}
+				delete(nk, phi)
+				if pi >= 0 && pi < len(phi.Edges) {
+					if val, ok := constBool(phi.Edges[pi], st.known); ok {
+						nk[phi] = val
+					}
+				}
+			}
+			queue = append(queue, state{s, nk})
 		}
 	}
 	return false
